@@ -76,23 +76,26 @@ func (v *Vue) evalTemplate(ctx VueContext, nodes []*html.Node, componentData map
 			}
 		}
 
-		// Evaluate v-html if attribute is provided
-		if err := v.evalVHtml(ctx, nodes[0]); err != nil {
+		// Evaluate v-html if attribute is provided. This is done on a copy: the template
+		// node itself still links to its unevaluated siblings, which the renderer would
+		// walk on into.
+		htmlNode := helpers.ShallowCloneWithAttrs(node)
+		if err := v.evalVHtml(ctx, htmlNode); err != nil {
 			return nil, err
 		}
 
 		// Check if v-html was evaluated (internal attribute set)
 		hasVHtml := false
-		for _, attr := range node.Attr {
+		for _, attr := range htmlNode.Attr {
 			if attr.Key == "data-v-html-content" {
 				hasVHtml = true
 				break
 			}
 		}
 
-		// If v-html was evaluated, return the template node for rendering to output its content
+		// If v-html was evaluated, return the copy for rendering to output its content
 		if hasVHtml {
-			return nodes, nil
+			return []*html.Node{htmlNode}, nil
 		}
 
 		// Evaluate attributes and set them in current scope
